@@ -4,8 +4,10 @@ import time
 from framework.checklib import CorrResult
 from harness import gen, histcorr, semoracle
 
+from translator import t9_circuit_core
+
 ID = 'C19'
-TRANSLATORS = []
+TRANSLATORS = [t9_circuit_core.translate]
 PROPERTY_FILE = 'Properties/C19.v'
 THEOREMS = ['C19_rename_outcome', 'C19_rename_ok_iff', 'C19_rename_references', 'C19_rename_semantics',
             'C19_rename_semantics_renamed_assignment', 'C19_rename_truth_table',
